@@ -332,8 +332,25 @@ class Histories(Sub):
 # closure of the reachable heap states (fork per expansion: a state cannot be copied, so the
 # history reaching it is replayed in a child process forked from the pristine parent)
 
-def _in_child(fn):
-    """run fn() in a forked child, return its JSON result"""
+def _decode_child(data):
+    """what a child wrote; a child that was killed (a machine out of memory or overloaded) leaves nothing or half a record"""
+    if not data:
+        return {'crash': 'no data from child', 'lost': True}
+    try:
+        return json.loads(data)
+    except ValueError:
+        return {'crash': 'unreadable record from child (%d characters)' % len(data), 'lost': True}
+
+
+def _in_child(fn, retry=True):
+    """run fn() in a forked child, return its JSON result (a child that was lost - not one that failed - is run once more)"""
+    res = _in_child_once(fn)
+    if retry and isinstance(res, dict) and res.get('lost'):
+        res = _in_child_once(fn)
+    return res
+
+
+def _in_child_once(fn):
     r, w = os.pipe()
     pid = os.fork()
     if pid == 0:
@@ -351,7 +368,7 @@ def _in_child(fn):
     with os.fdopen(r) as f:
         data = f.read()
     os.waitpid(pid, 0)
-    return json.loads(data) if data else {'crash': 'no data from child'}
+    return _decode_child(data)
 
 
 def _skip_noise(modname, key):
@@ -476,7 +493,10 @@ def _parallel_children(fns, maxpar=None):
         with os.fdopen(r) as f:
             data = f.read()
         os.waitpid(pid, 0)
-        results[k] = json.loads(data) if data else {'crash': 'no data from child'}
+        results[k] = _decode_child(data)
+    for k in range(len(results)):
+        if isinstance(results[k], dict) and results[k].get('lost'):
+            results[k] = _in_child_once(fns[k])      # a lost child (not a failed one) is run once more, alone
     return results
 
 
